@@ -483,6 +483,23 @@ fn replay(path: &str) -> Value {
     let cases = read_ndjson(path);
     let mut cache = Cache::default();
     let mut mm = Mismatches::new(300);
+    // the numeric operators are defined on (int, int) and (float, float): operands typed int|float must be refused;
+    // an implementation that accepts them is run on an int and a float — a panic is never an outcome
+    for op in ["+", "-", "*", "/", "%", "**", "<", "<=", ">", ">=", "&", "|", "^", "<<", ">>"] {
+        for f in [format!("(a: int|float, b: int|float) -> any {{ return a {op} b }}"),
+                  format!("(a: int|float, b: int|float) -> any {{ c := mut a; return c {op}= b }}")] {
+            if op.len() == 2 && op != "**" && op != "<<" && op != ">>" && f.contains("= b") { continue; }
+            if let Ok(fun) = cache.function(&f, false) {
+                for (x, y) in [(Variable::Float(1.5), Variable::Int(2)), (Variable::Int(2), Variable::Float(1.5))] {
+                    let fun2 = fun.clone();
+                    let r = catch(move || fun2.create_call(vec![x.clone(), y.clone()]).map(|c| c.exec()));
+                    if let Err(p) = r {
+                        mm.push("union-operands", json!({"form": "union-operands", "op": op, "program": f, "got": format!("accepted, then panic: {p}")}));
+                    }
+                }
+            }
+        }
+    }
     let mut st = Stats::new();
     let mut samples = vec![];
     let mut trivial: Vec<usize> = vec![];
